@@ -27,6 +27,7 @@ func runC18(c *Ctx) {
 	c.Clause("C18.6 the client reads the request body only through the cancelingReader wrapper")
 	c.Clause("C18.7 http3 state shared between request goroutines (server listeners / closed flag, transport client map, tracked streams, stream-ID watermarks) is accessed under its owner's mutex")
 	c.Clause("C18.8 responseWriter.Write counts and limit-checks every byte before accepting it, HEAD included")
+	c.Clause("C18.11 every rawConn is created with a handler that keeps reading the peer's control stream after SETTINGS")
 	c.Clause("C18.10 a body that ends before its declared Content-Length is io.ErrUnexpectedEOF on the reading side, and a request body whose length differs from ContentLength is refused on the sending side")
 	c.Clause("C18.9 decoded header and trailer fields accumulate under repeated names")
 	c.NotCovered("end-to-end equality of what the handler sees and what the client sent")
@@ -42,6 +43,7 @@ func runC18(c *Ctx) {
 	c.rule("C18.8", func() { c18WriteAccounting(c) })
 	c.rule("C18.9", func() { c18FieldsAccumulate(c) })
 	c.rule("C18.10", func() { c18ShortBodies(c) })
+	c.rule("C18.11", func() { c18ControlStreamReadOn(c) })
 }
 
 func c18Nil(c *Ctx) {
